@@ -229,6 +229,14 @@ fn oracle(schema: Option<&Schema>, d: &ExecutableDocument) -> Result<(), String>
             if got.len() != want.len() || got.iter().zip(&want).any(|(a, b)| !a.ptr_eq(b)) {
                 return Err(if all { "all_fields-differs" } else { "root_fields-differs" }.to_string());
             }
+            if all {
+                // exactly the reachable fields, each once
+                let reach = reachable_fields(d, &op.selection_set.selections);
+                let once = |x: &&Node<ex::Field>, l: &Vec<&Node<ex::Field>>| l.iter().filter(|y| y.ptr_eq(x)).count() == 1;
+                if got.len() != reach.len() || reach.iter().any(|x| !once(x, &got)) {
+                    return Err("all_fields-is-not-the-reachable-set".to_string());
+                }
+            }
         }
     }
     for f in d.fragments.values() {
@@ -238,6 +246,160 @@ fn oracle(schema: Option<&Schema>, d: &ExecutableDocument) -> Result<(), String>
             }
         }
         check_typing(schema, &f.selection_set.ty, &f.selection_set.selections)?;
+    }
+    Ok(())
+}
+
+/// All fields reachable from `sels` (sub-selections, inline fragments, defined fragment spreads), computed
+/// as a plain graph closure: first the set of reachable fragment names, then every field inside the start
+/// list and inside those fragments.  Independent of the order and of the seen-set logic of the iterators.
+fn reachable_fields<'a>(doc: &'a ExecutableDocument, sels: &'a [ex::Selection]) -> Vec<&'a Node<ex::Field>> {
+    fn spreads<'a>(sels: &'a [ex::Selection], out: &mut Vec<&'a Name>) {
+        for sel in sels {
+            match sel {
+                ex::Selection::Field(f) => spreads(&f.selection_set.selections, out),
+                ex::Selection::InlineFragment(i) => spreads(&i.selection_set.selections, out),
+                ex::Selection::FragmentSpread(sp) => out.push(&sp.fragment_name),
+            }
+        }
+    }
+    fn fields<'a>(sels: &'a [ex::Selection], out: &mut Vec<&'a Node<ex::Field>>) {
+        for sel in sels {
+            match sel {
+                ex::Selection::Field(f) => {
+                    out.push(f);
+                    fields(&f.selection_set.selections, out)
+                }
+                ex::Selection::InlineFragment(i) => fields(&i.selection_set.selections, out),
+                ex::Selection::FragmentSpread(_) => {}
+            }
+        }
+    }
+    let mut frags: Vec<&Name> = Vec::new();
+    let mut todo: Vec<&Name> = Vec::new();
+    spreads(sels, &mut todo);
+    while let Some(n) = todo.pop() {
+        if frags.contains(&n) {
+            continue;
+        }
+        if let Some(def) = doc.fragments.get(n) {
+            frags.push(n);
+            spreads(&def.selection_set.selections, &mut todo);
+        }
+    }
+    let mut out = Vec::new();
+    fields(sels, &mut out);
+    for n in frags {
+        fields(&doc.fragments[n].selection_set.selections, &mut out);
+    }
+    out
+}
+
+fn vars_in_value<'a>(v: &'a ast::Value, out: &mut Vec<&'a Name>) {
+    match v {
+        ast::Value::Variable(n) => out.push(n),
+        ast::Value::List(l) => l.iter().for_each(|x| vars_in_value(x, out)),
+        ast::Value::Object(l) => l.iter().for_each(|(_, x)| vars_in_value(x, out)),
+        _ => {}
+    }
+}
+
+fn vars_in_dirs<'a>(d: &'a ast::DirectiveList, out: &mut Vec<&'a Name>) {
+    for dir in d.iter() {
+        for a in &dir.arguments {
+            vars_in_value(&a.value, out)
+        }
+    }
+}
+
+/// every selection of the tree (not following spreads)
+fn all_selections<'a>(sels: &'a [ex::Selection], out: &mut Vec<&'a ex::Selection>) {
+    for sel in sels {
+        out.push(sel);
+        match sel {
+            ex::Selection::Field(f) => all_selections(&f.selection_set.selections, out),
+            ex::Selection::InlineFragment(i) => all_selections(&i.selection_set.selections, out),
+            ex::Selection::FragmentSpread(_) => {}
+        }
+    }
+}
+
+/// C18's second sentence, on a document the validator accepted.
+fn valid_guarantees(schema: &Schema, d: &ExecutableDocument) -> Result<(), String> {
+    // every spread names an existing fragment; composite fields have sub-selections, leaves have none
+    let mut roots: Vec<&ex::SelectionSet> = d.operations.iter().map(|o| &o.selection_set).collect();
+    roots.extend(d.fragments.values().map(|f| &f.selection_set));
+    for set in roots {
+        let mut sels = Vec::new();
+        all_selections(&set.selections, &mut sels);
+        for sel in sels {
+            match sel {
+                ex::Selection::FragmentSpread(sp) => {
+                    if !d.fragments.contains_key(&sp.fragment_name) {
+                        return Err(format!("valid-but-undefined-fragment:{}", sp.fragment_name));
+                    }
+                }
+                ex::Selection::Field(f) => {
+                    let composite = match schema.types.get(f.definition.ty.inner_named_type()) {
+                        Some(t) => t.is_object() || t.is_interface() || t.is_union(),
+                        None => return Err(format!("valid-but-field-type-undefined:{}", f.name)),
+                    };
+                    if composite == f.selection_set.selections.is_empty() {
+                        return Err(format!("valid-but-leaf-rule:{}", f.name));
+                    }
+                }
+                ex::Selection::InlineFragment(_) => {}
+            }
+        }
+    }
+    // spreads are acyclic: repeatedly remove fragments that spread only removed fragments
+    let mut remaining: Vec<&Name> = d.fragments.keys().collect();
+    loop {
+        let before = remaining.len();
+        let snapshot = remaining.clone();
+        remaining.retain(|n| {
+            let mut sels = Vec::new();
+            all_selections(&d.fragments[*n].selection_set.selections, &mut sels);
+            sels.iter().any(|s| matches!(s, ex::Selection::FragmentSpread(sp) if snapshot.contains(&&sp.fragment_name)))
+        });
+        if remaining.len() == before {
+            break;
+        }
+    }
+    if !remaining.is_empty() {
+        return Err(format!("valid-but-cyclic-fragments:{}", remaining[0]));
+    }
+    // every variable used by an operation (directly or through reachable fragments) is defined by it
+    for op in d.operations.iter() {
+        let mut used = Vec::new();
+        vars_in_dirs(&op.directives, &mut used);
+        let mut sets: Vec<&ex::SelectionSet> = vec![&op.selection_set];
+        let mut seen: Vec<&Name> = Vec::new();
+        while let Some(set) = sets.pop() {
+            let mut sels = Vec::new();
+            all_selections(&set.selections, &mut sels);
+            for sel in sels {
+                vars_in_dirs(sel.directives(), &mut used);
+                match sel {
+                    ex::Selection::Field(f) => f.arguments.iter().for_each(|a| vars_in_value(&a.value, &mut used)),
+                    ex::Selection::FragmentSpread(sp) => {
+                        if !seen.contains(&&sp.fragment_name) {
+                            seen.push(&sp.fragment_name);
+                            if let Some(def) = d.fragments.get(&sp.fragment_name) {
+                                vars_in_dirs(&def.directives, &mut used);
+                                sets.push(&def.selection_set);
+                            }
+                        }
+                    }
+                    ex::Selection::InlineFragment(_) => {}
+                }
+            }
+        }
+        for v in used {
+            if !op.variables.iter().any(|d| d.name == *v) {
+                return Err(format!("valid-but-undefined-variable:{v}"));
+            }
+        }
     }
     Ok(())
 }
@@ -253,10 +415,20 @@ fn xbuild(line: &str) -> String {
             list(op.all_fields(&d), |f| x_yield(f))
         )
     });
-    let o = match oracle(case.schema.as_ref().map(|s| &*s.0 as &Schema), &d) {
+    let mut o = match oracle(case.schema.as_ref().map(|s| &*s.0 as &Schema), &d) {
         Ok(()) => "ok".to_string(),
         Err(why) => format!("bad:{why}"),
     };
+    // what validation guarantees (second sentence of the property), on documents the validator accepts
+    if let Some(sch) = &case.schema {
+        if sch.1 && ok && o == "ok" {
+            if let Ok(valid) = ExecutableDocument::parse_and_validate(&sch.0, &case.doc_src, "doc.graphql") {
+                if let Err(why) = valid_guarantees(&sch.0, &valid) {
+                    o = format!("bad:{why}");
+                }
+            }
+        }
+    }
     format!(
         "build={} {} {} oracle={}",
         if ok { "ok" } else { "err" },
